@@ -715,6 +715,19 @@ func Join(locs ...Location) Location {
 		list.Push(loc, true)
 	}
 
+	// An element that absorbed its successor may now be absorbed by its
+	// predecessor: reduce again until the list stops shrinking.
+	for n := list.Len(); n > 1; n = list.Len() {
+		next := LocationList{}
+		for _, loc := range list.Slice() {
+			next.Push(loc, true)
+		}
+		if next.Len() == n {
+			break
+		}
+		list = next
+	}
+
 	switch list.Len() {
 	case 0:
 		panic("Join without arguments is not allowed")
